@@ -92,7 +92,11 @@ func genIP(t *rapid.T, label string, pool *[]net.IP) net.IP {
 	switch rapid.IntRange(0, 9).Draw(t, label+"_kind") {
 	case 0:
 		ip = net.IP(hello.GenBytes(t, label+"_bad", rapid.SampledFrom([]int{0, 1, 3, 5, 15, 17}).Draw(t, label+"_badlen")))
-	case 1, 2, 3, 4:
+	case 1:
+		// an IPv4-mapped IPv6 address in its 16-byte form (what an AAAA record or net.ParseIP
+		// yields): an IPv6 address for the family filter, distinct from the 4-byte spelling
+		ip = net.IP{0, 0, 0, 0, 0, 0, 0, 0, 0, 0, 0xff, 0xff, 10, 0, 0, byte(rapid.IntRange(1, 6).Draw(t, label+"_v4m"))}
+	case 2, 3, 4:
 		ip = net.IP{10, 0, 0, byte(rapid.IntRange(1, 6).Draw(t, label+"_v4"))}
 	default:
 		ip = net.IP{0x20, 1, 0xd, 0xb8, 0, 0, 0, 0, 0, 0, 0, 0, 0, 0, 0, byte(rapid.IntRange(1, 6).Draw(t, label+"_v6"))}
